@@ -12,6 +12,7 @@ INT_KERNELS = {'Mul': ['mul', 'mulself'], 'Square': ['square'], 'Add': ['add', '
                'Opp': ['opp'], 'FromMontgomery': ['from'], 'ToMontgomery': ['to']}
 BV_KERNELS = {'Selectznz': 'selectznz', 'Nonzero': 'nonzero', 'SetOne': 'consts'}
 _done = {}
+_tv_cases = {}
 
 
 def modulus(pkg):
@@ -60,6 +61,7 @@ def prove(ck, pkg, names, tier='quick'):
         list(ex.map(lambda k: int_kernel(ck, pkg, k, byid[k], m, tier), kinds))
     for n in todo:
         _done[(pkg, n)] = True
+    validate_translation(ck, pkg)
     ck.trusted.append('a*b <= (m-1)^2 for a,b < m (product monotonicity, the only fact about the abstracted 64x64 products beyond their range)')
 
 
@@ -245,6 +247,17 @@ def int_kernel(ck, pkg, kind, r, m, tier):
         ok_all = False
     if not ok_all:
         find_kernel_cex(ck, pkg, kind, r, m, outs)
+    # translator validation: outputs of the DAG (exact word semantics as symx emitted them) on concrete
+    # inputs, to be compared with the real function by a native run (see validate_translation)
+    apps = {'cmovznz': lambda c_, x, y: x if c_ == 0 else y}
+    for t in range(6 if tier == 'quick' else 40):
+        av, bv_ = rand_operand(rng, m, t * 3 + 1), rand_operand(rng, m, t * 5 + 2)
+        env = {}
+        for i in range(4):
+            env['a%d' % i] = limbs(av)[i]
+            env['b%d' % i] = limbs(bv_)[i]
+        ev = Eval(r, env, apps)
+        _tv_cases.setdefault(pkg, []).append({'kind': 'kernel-expect', 'op': kind, 'a': '%064x' % av, 'b': '%064x' % bv_, 'c': '%064x' % unlimbs([ev.ev(x) for x in outs])})
 
 
 def rand_operand(rng, m, t):
@@ -290,3 +303,16 @@ def find_kernel_cex(ck, pkg, kind, r, m, outs):
             ck.inconclusive.append('kernel %s.%s: DAG evaluation disagrees with reference but replay passes (translator problem)' % (pkg, kind))
             return
     ck.inconclusive.append('kernel %s.%s: contract not proved and no concrete witness found' % (pkg, kind))
+
+
+def validate_translation(ck, pkg):
+    """runs the real kernels natively on the inputs for which the symx DAG was evaluated; any disagreement is a
+    bug in the executor (broken check, exit 2), never a property violation"""
+    cases = _tv_cases.pop(pkg, [])
+    if not cases:
+        return
+    path = ck.save_replay({'property': ck.pid, 'pkg': pkg, 'purpose': 'translator validation', 'cases': cases})
+    ok, out = core.go_test(path, pkg=pkg)
+    ck.extra['validated'] = ck.extra.get('validated', 0) + (len(cases) if ok else 0)
+    if not ok:
+        raise core.EngineError('symx translation of internal/%s kernels disagrees with the native build: %s' % (pkg, out[-400:]))
